@@ -257,6 +257,25 @@ def effDefines (inp : Inp) (c : Str) (x : Str) : Bool :=
 /-- region `r` is part of the code analysed in configuration `c` -/
 def live (c : Str) (t : Items) (r : Nat) : Bool := (t.emit (defines c)).contains r
 
+def Kind.positive : Kind → Bool
+  | .ifdef | .ifDefined => true
+  | .ifndef | .ifNotDefined => false
+
+/-- the regions that are part of the code in *some* configuration in which every macro of `pos` is defined and
+    none of `neg` is (`pos` = names given by `-D`, `neg` = names given by `-U`); the specification side of
+    "coverage under -D and -U" (`reach_spec` in Props/C12.lean) -/
+def Items.reach (pos neg : List Str) : Items → List Nat
+  | .done => []
+  | .region r rest => r :: rest.reach pos neg
+  | .cond k m t rest =>
+    (if k.positive then (if neg.contains m then [] else t.reach (m :: pos) neg)
+     else (if pos.contains m then [] else t.reach pos (m :: neg))) ++ rest.reach pos neg
+  | .condElse k m t e rest =>
+    (if k.positive then (if neg.contains m then [] else t.reach (m :: pos) neg)
+     else (if pos.contains m then [] else t.reach pos (m :: neg))) ++
+    (if k.positive then (if pos.contains m then [] else e.reach pos (m :: neg))
+     else (if neg.contains m then [] else e.reach (m :: pos) neg)) ++ rest.reach pos neg
+
 def Items.regions : Items → List Nat
   | .done => []
   | .region r rest => r :: rest.regions
